@@ -13,7 +13,7 @@
    ([criterion]) produced by [parse_criteria] and interpreted by [sat].
    build_wildcard_re builds a Python regex (question mark -> dot, star -> dot star, nothing
    else escaped, the tilde look-behinds never fire) and matches it against
-   x.lower() of whatever the cell holds: [glob_match] is a regex-free model of
+   x.lower() of a text cell (any other cell does not match): [glob_match] is a regex-free model of
    the generated pattern for criteria whose text has no regex metacharacter
    other than ? and *; anything else is Unmodelled, as are texts with a line
    feed ('.' and '$' treat it specially).  Ranges are tuples/lists of row
@@ -88,13 +88,20 @@ Definition lower_str (s : str) : res str :=
    this order), the rest of the line is the value *)
 Definition split_op (s : str) : str * str :=
   match s with
-  | 61 :: v => ([61], v)
-  | 60 :: 62 :: v => ([60; 62], v)
-  | 60 :: 61 :: v => ([60; 61], v)
-  | 60 :: v => ([60], v)
-  | 62 :: 61 :: v => ([62; 61], v)
-  | 62 :: v => ([62], v)
-  | _ => ([], s)
+  | a :: t =>
+      if a =? 61 then ([61], t)
+      else if a =? 60 then
+        match t with
+        | b :: u => if b =? 62 then ([60; 62], u) else if b =? 61 then ([60; 61], u) else ([60], t)
+        | [] => ([60], t)
+        end
+      else if a =? 62 then
+        match t with
+        | b :: u => if b =? 61 then ([62; 61], u) else ([62], t)
+        | [] => ([62], t)
+        end
+      else ([], s)
+  | [] => ([], s)
   end.
 
 Definition lookup_op (os : str) : res cop :=
@@ -130,11 +137,10 @@ Definition sat (c : criterion) (x : pyval) : res bool :=
       isn <- is_num x ;;
       if isn then (v <- to_num x ;; Ok (py_eq v n)) else Ok false
   | CWild p =>
-      match x with
-      | VNone => Ok false
+      match x with                 (* isinstance(x, str) and compiled.match(x.lower()) *)
       | VStr s => w <- lower_str s ;;
                   if has_newline w then Raise Unmodelled else Ok (glob_match p w)
-      | _ => Raise AttributeError           (* x.lower() *)
+      | _ => Ok false
       end
   | COpNum o n =>
       match x with
